@@ -401,18 +401,32 @@ theorem strBytes_serializeV4 (cb : Bytes) :
     strBytes ("cashuB" ++ asciiStr (b64Encode false cb)) = prefixV4 ++ b64Encode false cb := by
   rw [strBytes_append, strBytes_asciiStr _ (b64Encode_ascii false cb)]; rfl
 
+theorem checkV3_of_ne (t : TokenV3) (hne : t.token ≠ []) : checkV3 t = .ok t := by
+  unfold checkV3
+  cases h : t.token with
+  | nil => exact absurd h hne
+  | cons a b => simp
+
+theorem checkV3_ok (t t' : TokenV3) (h : checkV3 t = .ok t') : t' = t ∧ t.token ≠ [] := by
+  unfold checkV3 at h
+  split at h
+  · cases h
+  · rename_i hl
+    cases h
+    exact ⟨rfl, fun e => hl (by simp [e])⟩
+
 /-- `DecodeToken (t.Serialize())` for a V3 token, given that `json.Unmarshal` inverts `json.Marshal` on `t`. -/
 theorem decodeToken_serializeV3 (cod : Codec) (t : TokenV3) (js : Bytes)
-    (henc : cod.encJson t = some js) (hdec : cod.decJson js = some t) :
+    (henc : cod.encJson t = some js) (hdec : cod.decJson js = some t) (hne : t.token ≠ []) :
     ∃ s, serializeV3 cod t = some s ∧ decodeToken cod s = .ok (.v3 t) ∧ decodeTokenV3 cod s = .ok t := by
   refine ⟨"cashuA" ++ asciiStr (b64Encode true js), by simp only [serializeV3, henc], ?_, ?_⟩
   · unfold decodeToken decodeTokenBytes decodeV4Bytes decodeV3Bytes frontV4 frontV3
     rw [strBytes_serializeV3, front_other _ _ _ prefixV3_length prefixV3_ne_V4,
       front_own _ _ prefixV3_length]
-    simp only [hdec]
+    simp only [hdec, checkV3_of_ne t hne]
   · unfold decodeTokenV3 decodeV3Bytes frontV3
     rw [strBytes_serializeV3, front_own _ _ prefixV3_length]
-    simp only [hdec]
+    simp only [hdec, checkV3_of_ne t hne]
 
 /-- `DecodeToken (t.Serialize())` for a V4 token, given that `cbor.Unmarshal` inverts `cbor.Marshal` on `t`. -/
 theorem decodeToken_serializeV4 (cod : Codec) (t : TokenV4) (cb : Bytes)
@@ -812,12 +826,70 @@ theorem LowerHexProof.norm {d : Bool} {p : Proof} (h : LowerHexProof d p) : norm
 theorem Proof.keep_true : Proof.keep true = fun p => p := by funext p; rfl
 theorem Proof.keep_false : Proof.keep false = Proof.clearDLEQ := by funext p; rfl
 
-/-! ## the front end never panics on 6 or more bytes -/
+/-! ## the front end never panics; the code before the fix panics exactly below 6 bytes -/
 
-theorem front_cases (pfx : Bytes) (bad : DecErr) (s : Bytes) :
-    (s.length < 6 ∧ front pfx bad s = .panic (.sliceBounds 6 s.length)) ∨
-    (6 ≤ s.length ∧ ((∃ e, front pfx bad s = .err e) ∨ ∃ b, front pfx bad s = .ok b)) := by
+theorem front_no_panic (pfx : Bytes) (bad : DecErr) (s : Bytes) (p : Panic) : front pfx bad s ≠ .panic p := by
   unfold front
+  by_cases h1 : s.length < cut
+  · simp [h1]
+  · by_cases h2 : s.take cut = pfx
+    · simp only [h1, if_false, ne_eq, h2, not_true_eq_false]
+      cases b64Stage (s.drop cut) <;> simp
+    · simp [h1, h2]
+
+theorem front_short (pfx : Bytes) (bad : DecErr) (s : Bytes) (h : s.length < 6) : front pfx bad s = .err bad := by
+  unfold front; simp [h]
+
+theorem decodeV4Bytes_no_panic (cod : Codec) (s : Bytes) (p : Panic) : decodeV4Bytes cod s ≠ .panic p := by
+  unfold decodeV4Bytes frontV4
+  have := front_no_panic prefixV4 .invalidTokenV4 s
+  repeat' split
+  all_goals simp_all
+
+theorem decodeV3Bytes_no_panic (cod : Codec) (s : Bytes) (p : Panic) : decodeV3Bytes cod s ≠ .panic p := by
+  unfold decodeV3Bytes frontV3 checkV3
+  have := front_no_panic prefixV3 .invalidTokenV3 s
+  repeat' split
+  all_goals simp_all
+
+theorem decodeV3Bytes_ok (cod : Codec) (s : Bytes) (t : TokenV3) (h : decodeV3Bytes cod s = .ok t) : t.token ≠ [] := by
+  unfold decodeV3Bytes at h
+  split at h
+  · cases h
+  · cases h
+  · split at h
+    · cases h
+    · exact (checkV3_ok _ _ h).1 ▸ (checkV3_ok _ _ h).2
+
+theorem decodeTokenBytes_no_panic (cod : Codec) (s : Bytes) (p : Panic) : decodeTokenBytes cod s ≠ .panic p := by
+  unfold decodeTokenBytes
+  have h4 := decodeV4Bytes_no_panic cod s
+  have h3 := decodeV3Bytes_no_panic cod s
+  repeat' split
+  all_goals simp_all
+
+theorem decodeTokenBytes_ok_v3 (cod : Codec) (s : Bytes) (t : TokenV3) (h : decodeTokenBytes cod s = .ok (.v3 t)) :
+    t.token ≠ [] := by
+  unfold decodeTokenBytes at h
+  split at h
+  · cases h
+  · cases h
+  · split at h
+    · cases h
+    · rename_i t' ht
+      cases h
+      exact decodeV3Bytes_ok cod s t ht
+    · cases h
+
+theorem decodeTokenBytes_short (cod : Codec) (s : Bytes) (h : s.length < 6) :
+    decodeTokenBytes cod s = .err .invalidTokenV3 := by
+  unfold decodeTokenBytes decodeV4Bytes decodeV3Bytes frontV4 frontV3
+  rw [front_short _ _ _ h, front_short _ _ _ h]
+
+theorem frontOld_cases (pfx : Bytes) (bad : DecErr) (s : Bytes) :
+    (s.length < 6 ∧ frontOld pfx bad s = .panic (.sliceBounds 6 s.length)) ∨
+    (6 ≤ s.length ∧ ((∃ e, frontOld pfx bad s = .err e) ∨ ∃ b, frontOld pfx bad s = .ok b)) := by
+  unfold frontOld
   by_cases h : s.length < 6
   · left; simp [h]
   · right
@@ -829,48 +901,45 @@ theorem front_cases (pfx : Bytes) (bad : DecErr) (s : Bytes) :
       · exact Or.inl ⟨_, rfl⟩
       · exact Or.inr ⟨_, rfl⟩
 
-theorem decodeV4Bytes_cases (cod : Codec) (s : Bytes) :
-    (s.length < 6 ∧ decodeV4Bytes cod s = .panic (.sliceBounds 6 s.length)) ∨
-    (6 ≤ s.length ∧ ((∃ e, decodeV4Bytes cod s = .err e) ∨ ∃ t, decodeV4Bytes cod s = .ok t)) := by
-  unfold decodeV4Bytes frontV4
-  rcases front_cases prefixV4 .invalidTokenV4 s with ⟨h, e⟩ | ⟨h, ⟨e, he⟩ | ⟨b, hb⟩⟩
-  · left; exact ⟨h, by rw [e]⟩
-  · right; exact ⟨h, Or.inl ⟨e, by rw [he]⟩⟩
-  · right
-    refine ⟨h, ?_⟩
-    rw [hb]
-    cases hdc : cod.decCbor b with
-    | none => exact Or.inl ⟨.unmarshal, by simp only [hdc]⟩
-    | some t => exact Or.inr ⟨t, by simp only [hdc]⟩
-
-theorem decodeV3Bytes_cases (cod : Codec) (s : Bytes) :
-    (s.length < 6 ∧ decodeV3Bytes cod s = .panic (.sliceBounds 6 s.length)) ∨
-    (6 ≤ s.length ∧ ((∃ e, decodeV3Bytes cod s = .err e) ∨ ∃ t, decodeV3Bytes cod s = .ok t)) := by
-  unfold decodeV3Bytes frontV3
-  rcases front_cases prefixV3 .invalidTokenV3 s with ⟨h, e⟩ | ⟨h, ⟨e, he⟩ | ⟨b, hb⟩⟩
-  · left; exact ⟨h, by rw [e]⟩
-  · right; exact ⟨h, Or.inl ⟨e, by rw [he]⟩⟩
-  · right
-    refine ⟨h, ?_⟩
-    rw [hb]
-    cases hdc : cod.decJson b with
-    | none => exact Or.inl ⟨.unmarshal, by simp only [hdc]⟩
-    | some t => exact Or.inr ⟨t, by simp only [hdc]⟩
-
-theorem decodeTokenBytes_cases (cod : Codec) (s : Bytes) :
-    (s.length < 6 ∧ decodeTokenBytes cod s = .panic (.sliceBounds 6 s.length)) ∨
-    (6 ≤ s.length ∧ ((∃ e, decodeTokenBytes cod s = .err e) ∨ ∃ t, decodeTokenBytes cod s = .ok t)) := by
-  unfold decodeTokenBytes
-  rcases decodeV4Bytes_cases cod s with ⟨h, e⟩ | ⟨h, ⟨e, he⟩ | ⟨t, ht⟩⟩
-  · left; exact ⟨h, by rw [e]⟩
-  · right
-    refine ⟨h, ?_⟩
-    rw [he]
-    rcases decodeV3Bytes_cases cod s with ⟨h', _⟩ | ⟨_, ⟨e', he'⟩ | ⟨t, ht⟩⟩
-    · omega
-    · rw [he']; exact Or.inl ⟨_, rfl⟩
-    · rw [ht]; exact Or.inr ⟨_, rfl⟩
-  · right; exact ⟨h, Or.inr ⟨_, by rw [ht]⟩⟩
+/-- Before the fix `DecodeToken` panicked exactly on inputs of fewer than 6 bytes (in `DecodeTokenV4`). -/
+theorem decodeTokenBytesOld_panic_iff (cod : Codec) (s : Bytes) (p : Panic) :
+    decodeTokenBytesOld cod s = .panic p ↔ s.length < 6 ∧ p = .sliceBounds 6 s.length := by
+  unfold decodeTokenBytesOld
+  rcases frontOld_cases prefixV4 .invalidTokenV4 s with ⟨h, e⟩ | ⟨h, ⟨e, he⟩ | ⟨b, hb⟩⟩
+  · simp only [e]
+    constructor
+    · intro hp; cases hp; exact ⟨h, rfl⟩
+    · intro hp; rw [hp.2]
+  · have h3 : ∀ q, frontOld prefixV3 .invalidTokenV3 s ≠ .panic q := by
+      intro q hq
+      rcases frontOld_cases prefixV3 .invalidTokenV3 s with ⟨h', _⟩ | ⟨_, ⟨e', he'⟩ | ⟨b', hb'⟩⟩
+      · omega
+      · rw [he'] at hq; cases hq
+      · rw [hb'] at hq; cases hq
+    simp only [he]
+    constructor
+    · intro hp
+      exfalso
+      repeat' split at hp
+      all_goals simp_all
+    · intro hp; omega
+  · have h3 : ∀ q, frontOld prefixV3 .invalidTokenV3 s ≠ .panic q := by
+      intro q hq
+      rcases frontOld_cases prefixV3 .invalidTokenV3 s with ⟨h', _⟩ | ⟨_, ⟨e', he'⟩ | ⟨b', hb'⟩⟩
+      · omega
+      · rw [he'] at hq; cases hq
+      · rw [hb'] at hq; cases hq
+    simp only [hb]
+    constructor
+    · intro hp
+      exfalso
+      cases hdc : cod.decCbor b with
+      | some t => simp [hdc] at hp
+      | none =>
+        simp only [hdc] at hp
+        repeat' split at hp
+        all_goals simp_all
+    · intro hp; omega
 
 /-! ## concrete instances used by the non-vacuity examples of `Props/C14.lean` -/
 
